@@ -145,7 +145,7 @@ def run_convert(case):
     names = [g[0] for g in case["gates"]]
     labels = set()
     try:
-        circ, rules = call_with_timeout("qiskit_converter", 3, qiskit_converter, qc,
+        circ, rules = call_with_timeout("qiskit_converter", 10, qiskit_converter, qc,
                                         allow_post_selection=case["aps"])
     except ValueError as e:
         why = refusal_legit(case)
